@@ -33,6 +33,7 @@ type input struct {
 }
 
 type src struct {
+	slow     time.Duration // Value takes this long (used by the concurrent SetSource operation)
 	v        int
 	fail     bool
 	watcher  bool
@@ -51,6 +52,9 @@ func layer(t *dials.Type, v int) reflect.Value {
 type staticSrc struct{ s *src }
 
 func (s staticSrc) Value(_ context.Context, t *dials.Type) (reflect.Value, error) {
+	if s.s.slow > 0 {
+		time.Sleep(s.s.slow)
+	}
 	if s.s.fail {
 		return reflect.Value{}, errors.New("value failed")
 	}
@@ -132,6 +136,24 @@ func run(raw json.RawMessage) driver.Result {
 					e = blank.SetSource(octx, staticSrc{s})
 				}
 				ret = class(e)
+			case "par":
+				// two SetSource calls racing: a static source whose Value is slow, and - started while the
+				// first one is inside Value - a watching source.  SetSource holds the Blank's mutex across
+				// Value, so they are serialised in start order: static first, then the watcher.
+				next += 2
+				s1 := &src{v: next - 1, slow: 25 * time.Millisecond}
+				s2 := &src{v: next, watcher: true}
+				opTerms[i] = fmt.Sprintf("OpSet (SrcStatic (Ok (VStruct [VPtr (VInt %d%%Z); VNil]))); OpSet (SrcWatcher (Ok (VStruct [VPtr (VInt %d%%Z); VNil])) true)", s1.v, s2.v)
+				var e1, e2 error
+				done1 := make(chan struct{})
+				go func() { e1 = blank.SetSource(octx, staticSrc{s1}); close(done1) }()
+				time.Sleep(8 * time.Millisecond)
+				e2 = blank.SetSource(octx, watchSrc{staticSrc{s2}})
+				<-done1
+				if s2.wa != nil {
+					live = s2
+				}
+				ret = class(e1) + "; " + class(e2)
 			case "done":
 				opTerms[i] = "OpDone"
 				blank.Done(octx)
@@ -157,7 +179,7 @@ func run(raw json.RawMessage) driver.Result {
 		if bverr == nil {
 			bvTerm = "(Ok " + rty.ValTerm(bv) + ")"
 		}
-		obs[i] = fmt.Sprintf("(%s, %s, %s)", ret, rty.StructFieldsTerm(reflect.ValueOf(d.View()).Elem()), bvTerm)
+		obs[i] = fmt.Sprintf("([%s], [%s], %s, %s)", opTerms[i], ret, rty.StructFieldsTerm(reflect.ValueOf(d.View()).Elem()), bvTerm)
 	}
 	nontrivial := false
 	joined := strings.Join(in.Ops, " ")
@@ -165,14 +187,14 @@ func run(raw json.RawMessage) driver.Result {
 		nontrivial = true
 	}
 	return driver.Result{
-		Coq:        fmt.Sprintf("BlankCase %s %s %s %s", rty.FieldsTerm(reflect.TypeOf(Cfg{})), rty.StructFieldsTerm(reflect.ValueOf(defaults).Elem()), coqfmt.List(opTerms), coqfmt.List(obs)),
+		Coq:        fmt.Sprintf("BlankCase %s %s %s", rty.FieldsTerm(reflect.TypeOf(Cfg{})), rty.StructFieldsTerm(reflect.ValueOf(defaults).Elem()), coqfmt.List(obs)),
 		Kind:       fmt.Sprintf("len-%d", len(in.Ops)),
 		Nontrivial: nontrivial,
 		Direct:     direct,
 	}
 }
 
-var alphabet = []string{"sA", "sF", "wC", "wD", "done", "rep"}
+var alphabet = []string{"sA", "sF", "wC", "wD", "done", "rep", "par"}
 
 func gen(r *coqfmt.Rng, n int, tier string) []json.RawMessage {
 	maxLen := 4
@@ -200,7 +222,7 @@ func gen(r *coqfmt.Rng, n int, tier string) []json.RawMessage {
 func main() {
 	driver.Main(driver.Engine{
 		Prop: "C20", CoqImport: "Dials.Check.C20BlankCheck", CoqRun: "run_cases",
-		Rule: "EXHAUSTIVE enumeration of all operation histories of length <= 4 (quick) / <= 5 (thorough) over {SetSource static, SetSource failing, SetSource watcher, SetSource watcher whose Watch fails, Done, report through the inner watcher's WatchArgs} on a Blank inside a real Dials; non-trivial: contains a watcher and either a Done or a second SetSource",
+		Rule: "EXHAUSTIVE enumeration of all operation histories of length <= 4 (quick) / <= 5 (thorough) over {SetSource static, SetSource failing, SetSource watcher, SetSource watcher whose Watch fails, Done, report through the inner watcher's WatchArgs, two concurrent SetSource calls (slow static Value racing a watcher)} on a Blank inside a real Dials; non-trivial: contains a watcher and either a Done or a second SetSource",
 		Gen:  gen, Run: run, Parallel: 48,
 	})
 }
